@@ -385,6 +385,11 @@ async def drive(make: Callable[[], Any], ctl: Ctl, sched: Schedule, src: bytes, 
         finishing = False
         for e, rk, data in picks:
             ctl.out.remove(e)
+            if e.fut.done():
+                # the code under test gave this request up (cancelled it) before its reply came: nothing to answer;
+                # recorded, so that model and oracle see a request that was never completed
+                events.append(f'gone:{e.off}')
+                continue
             if kind == 'copy' and e.kind == 'w' and e.req is None:
                 e.fut.set_result(len(e.arg))       # the final extension write of a sparse copy: not a block
                 continue
